@@ -343,6 +343,7 @@ func verifC09Rank(rx, ry, rz int) {}
 //@   ensures forall i int :: 0 <= i < len(res.Values) ==> (bit(m, i) <==> unitMatches(q, res.Values[i]))
 //@   loop 1:
 //@     invariant 0 <= idx() <= len(res.Values) && unchanged() && len(m) == (len(res.Values)+31)/32 && m != nil && (len(m) == 0 || fresh(m))
+//@     invariant len(res.Values) <= 32*len(m)
 //@     invariant forall i int :: 0 <= i < idx() ==> (bit(m, i) <==> unitMatches(q, res.Values[i]))
 //@     invariant forall i int :: idx() <= i < 32*len(m) ==> !bit(m, i)
 //@     decreases len(res.Values) - idx()
